@@ -6,7 +6,8 @@
    (0 = the connection is idle / pooled).
 
    Events
-     acquire  j c samekey     request j was handed connection c
+     acquire  j c samekey alive
+                               request j was handed connection c (alive: its transport was still open)
      feed     c ep m part surplus
                                the peer's bytes reach connection c; part in
                                {"whole","head","body","frag"}; surplus = the bytes lie beyond
@@ -51,7 +52,9 @@ Step(e) ==
     CASE e.ev = "acquire" ->
             LET why == GetD(dirty, e.c, "") IN
             [mep |-> mep, dirty |-> dirty,
-             bad |-> IF why # "" THEN ReuseClause(why)
+             \* a connection that is already closed when connect() returns it cannot carry an
+             \* exchange (the request fails before a byte is sent): that is not a reuse
+             bad |-> IF why # "" /\ e.alive THEN ReuseClause(why)
                      ELSE IF ~e.samekey THEN "KeyMismatch" ELSE ""]
       [] e.ev = "feed" ->
             [mep |-> Upd(mep, e.m, GetD(mep, e.m, {}) \cup {e.ep}),
